@@ -25,7 +25,7 @@ CYC_THR = {'amp_fraction_threshold': .2, 'amp_consistency_threshold': .4, 'perio
 AMP_THR = {'burst_fraction_threshold': .5}
 
 
-def windows_for(df, n, rng, k):
+def windows_for(df, n, rng, k, fs=None):
     roles = tt.roles_of(df)
     last, nxt = df[roles[1]].values, df[roles[5]].values
     m = len(df)
@@ -36,7 +36,15 @@ def windows_for(df, n, rng, k):
              (0, int(nxt[m // 2])),
              (int(last[m // 2]) + 1, int(last[m // 2]) + 3),                    # no complete cycle
              (int(rng.integers(0, n // 3)), None), (None, int(rng.integers(n // 2, n)))]
-    return [cands[(k + j) % len(cands)] for j in range(3)]
+    out = [cands[(k + j) % len(cands)] for j in range(3)]
+    if fs is not None and k % 2 == 0:
+        # a start s whose time s/fs multiplies back to a hair ABOVE s (fs not a power of two) and that is not an extremum itself: everything the
+        # property demands is still decidable there (no cycle boundary on the limit), a one-sample slip of the shifted indices is not
+        sides = set(int(x) for x in last) | set(int(x) for x in nxt)
+        s_above = next((s_ for s_ in range(int(last[0]) + 1, max(int(last[0]) + 2, n // 2)) if fs * (s_ / fs) > s_ and int(fs * (s_ / fs)) == s_ and s_ not in sides), None)
+        if s_above is not None:
+            out[-1] = (s_above, None)
+    return out
 
 
 def run_tv(ctx, n_tables, max_len=640):
@@ -48,10 +56,12 @@ def run_tv(ctx, n_tables, max_len=640):
         df = df.drop(columns=['rowid'])
         method = c['opts']['burst_method']
         base = list((CYC_THR if method == 'cycles' else AMP_THR).items())
+        rot = (k // 9) % len(base)
+        base = base[rot:] + base[:rot]          # the thresholds written in another order: a dictionary's order carries no meaning
         at = [len(base), 0, len(base) // 2][(k // 3) % 3]        # min_n_cycles written last, first or in the middle of the dictionary
         thr = dict(base[:at] + [('min_n_cycles', 2)] + base[at:])
         n = len(c['sig'])
-        for (a, b) in windows_for(df, n, rng, k):
+        for (a, b) in windows_for(df, n, rng, k, c['fs']):
             ops = [('summary', {'interp': bool(k % 2), 'only_result': k % 5 == 0}), ('cyclepoints_df', {'plot_zerox': k % 3 != 0, 'plot_extrema': k % 4 != 1, 'plot_sig': k % 2 == 0}),
                    ('param', {'interp': bool((k // 2) % 2), 'param_index': k}), ('cyclepoints_array', {'rise': k % 2 == 0, 'decay': k % 3 != 1, 'plot_sig': True}),
                    ('object', {'interp': bool(k % 2), 'only_result': k % 7 == 0})]
@@ -70,7 +80,7 @@ def classify(m, f, raised):
     a, b = m['window_samples']
     wclass = 'no_xlim' if a is None and b is None else ('window_from_0' if not a else 'window_not_from_0')
     exact = pv.exact_window(m['n'], m['fs'], a, b)
-    return '%s.%s.%s%s' % (f, m['op'], wclass, '' if exact else '.fs_times_limit_inexact')
+    return '%s.%s.%s%s' % (f, m['op'], wclass, '' if exact else '.fs_times_limit_inexact_' + pv.inexact_direction(m['n'], m['fs'], a, b))
 
 
 def _rec(job):
